@@ -177,7 +177,7 @@ def c02(report, rng, tier, findings):
     for i in range(n):
         nv = rng.choice((2, 2, 3, 3, 4)) if tier != 'quick' else rng.choice((2, 2, 3))
         cfg = gen.Cfg(n_vars=(nv, nv), n_objs=(2, 4 if nv <= 3 else 3), depth=2 if nv >= 3 else 3,
-                      select_terms=0.2, preds=True)
+                      select_terms=0.2, preds=True, select_all=0.35)
         cases.append(gen.gen_case(rng, cfg, f'c{i}'))
     report.rule = ("random queries over 2-4 variables (30% sharing one domain list: self-joins), conditions over random "
                    "variable subsets, 1..n variables selected in random order, attribute expressions among the selected; "
